@@ -181,6 +181,12 @@ func Universe(si *world.SchemaInfo, profile string) []Slot {
 		add(P(E("sys"), E("opts"), E("level")), "1", "2", "3")
 		add(P(E("sys"), E("ext"), E("note")), "n1", "n2")
 		add(P(E("sys"), E("extleaf")), "x1", "x2")
+		add(P(E("deep"), E("l2"), E("l3"), E("a")), "a1", "a2")
+		add(P(E("deep"), E("l2"), E("l3"), E("b")), "1", "2")
+		add(P(E("deep"), E("l2"), E("l3"), E("c")), "c1", "c1,c2")
+		add(P(E("deep"), E("l2"), E("l3"), E("d")), "7", "7,8")
+		add(P(E("deep"), E("l2"), E("l3"), E("l4"), E("l5"), E("x")), "x1", "x2")
+		add(P(E("deep"), E("l2"), E("l3"), E("l4"), E("l5"), E("y")), "y1", "y2")
 		for _, k := range keys {
 			add(P(E("k1", "name", k), E("val")), "v1", "v2", "v3")
 			add(P(E("k1", "name", k), E("num")), "1", "2", "3")
